@@ -80,12 +80,14 @@ PROPS = {
                   'clean_calls': {'time.strftime': 'clock, not input'},
                   'allow': [('gen_info', ['info_str'], 'loop id and name come from the map (configuration), not from the input')],
                   'replay': 'html_replay.py'},
+        'bounded': ['contracts.sinks:bounded_html_report'],
     },
     'C08': {
         'level': 'proof',
         'functions': ['pyx12.xmlwriter.XMLWriter._escape_cont', 'pyx12.xmlwriter.XMLWriter._escape_attr'],
         'crosscheck_functions': [],
         'lean': 'lemmas/Escape.lean',
+        'bounded': ['contracts.sinks:bounded_xml_roundtrip'],
     },
     'C17': {
         'level': 'proof',
